@@ -64,6 +64,14 @@ Synth(t) == t \in {"xs.threshold", "xs.pulse"}
 (* HANDLERS: C14 C15 C16, handler part of C17 and C06 *)
 HRegs == {i \in Idx : F[i].suf = "register" /\ HasKind(i) /\ KindOf(i).fam = "h"}
 
+\* A registration that reaches the serve loop while it is still replaying history (right after a
+\* start) is compacted like history: a later .register of the name makes it a replaced
+\* registration that is never started.  The trace cannot tell where the replay ended, only that a
+\* handler-stamped frame of the incarnation proves the loop was live before it.
+Superseded(r) ==
+  \E i \in Idx : /\ i > r /\ F[i].suf = "register" /\ F[i].name = F[r].name /\ F[i].inc = F[r].inc
+                 /\ ~\E x \in Idx : x < i /\ F[x].inc = F[r].inc /\ Proc(x) /\ F[x].hid # 0
+
 \* one registration r in one incarnation j
 HInst(q, r, j) ==
   LET k == KindOf(r)
@@ -138,7 +146,7 @@ HInst(q, r, j) ==
         \cup (IF Cardinality(Ann) > 1 THEN {V({"C16", "C17"}, "registered-twice", Max(Ann))} ELSE {})
         \cup (IF Cardinality(Unr) > 1 THEN {V({"C16"}, "unregistered-twice", Max(Unr))} ELSE {})
         \cup (IF Ann = {} /\ (Out # {} \/ Unr # {}) /\ settled /\ k.valid THEN {V({"C16"}, "missing-registered", r)} ELSE {})
-        \cup (IF j = j0 /\ Ann = {} /\ Unr = {} /\ settled /\ k.valid THEN {V({"C16"}, "missing-registered", r)} ELSE {})
+        \cup (IF j = j0 /\ Ann = {} /\ Unr = {} /\ settled /\ k.valid /\ ~Superseded(r) THEN {V({"C16"}, "missing-registered", r)} ELSE {})
         \* ---- the stop: first (un)register of the name / failing trigger it is shown; final
         \cup (IF u # 0 THEN {V({"C16"}, "output-after-unregistered", o) : o \in {o \in Out : o > u}} ELSE {})
         \cup (IF u # 0 /\ k.valid /\ F[u].fid = 0 THEN {V({"C16"}, "valid-script-rejected", u)} ELSE {})
@@ -146,7 +154,7 @@ HInst(q, r, j) ==
         \cup (IF u # 0 /\ F[u].fid >= 1 /\ F[u].fid \notin StopC THEN {V({"C16", "C15"}, "spurious-stop", u)} ELSE {})
         \cup (IF u # 0 /\ F[u].fid >= 1 /\ F[u].fid \in StopC /\ F[u].err # ~OwnReg(F[u].fid)
               THEN {V({"C16", "C15"}, "unregistered-error-flag", u)} ELSE {})
-        \cup {V({"C16"}, "stop-ignored", i) : i \in {i \in Owed : i < End /\ LaterActivity(i)}}
+        \cup {V({"C16"}, "stop-ignored", i) : i \in {i \in StopC \cap Seen : i < End /\ LaterActivity(i)}}
         \cup {V({"C16", "C15"}, "missing-unregistered", i) : i \in {i \in Owed : i < End /\ ~LaterActivity(i) /\ u = 0 /\ settled /\ Ann # {}}}
         \* ---- invocations: eligible, in order, one at a time, complete groups
         \cup UNION {Eligible(t) : t \in KTrigs}
@@ -185,8 +193,8 @@ HInst(q, r, j) ==
         \cup (IF tail /\ Ann # {} /\ \E i \in StopC : OwnReg(i) /\ i < a /\ i \notin Seen /\ i < End /\ F[i].suf = "unregister"
            THEN {"C16-unregister-in-flight"} ELSE {})
         \* DESIGN 6 #9: frames right after .registered not shown although later ones are
-        \cup (IF tail /\ Ann # {} /\ k.group > 0 /\ SeenLB <= N
-                 /\ \E i \in Must : i < SeenLB /\ Reacts(k, i) /\ i < End
+        \cup (IF tail /\ Ann # {} /\ SeenLB <= N
+                 /\ \E i \in Must : i < SeenLB /\ i < End /\ (i \in StopC \/ (k.group > 0 /\ Reacts(k, i)))
            THEN {"C16-announce-before-subscribe"} ELSE {})
   IN [v |-> viol, k |-> kn, ann |-> Ann, unr |-> Unr, act |-> St # {}]
 
@@ -206,20 +214,22 @@ HReg(q, r) ==
       \* DESIGN 6 #10: compaction keyed by name only - a later register of the same name in
       \* another context (whatever became of it) hides this one at every later start
       Shadowed(j) == \E i \in Idx : i > r /\ F[i].suf = "register" /\ F[i].name = n /\ F[i].ctx # c /\ F[i].inc < j
+      \* a later .register of the same (context, name) replaced it, whatever became of that one
+      Replaced(j) == \E i \in Idx : i > r /\ F[i].suf = "register" /\ F[i].name = n /\ F[i].ctx = c /\ F[i].inc < j
+      Owes(j) == j > j0 /\ AnnouncedBefore(j) /\ ~StoppedBefore(j) /\ ~Replaced(j) /\ Settled(q, j) /\ I(j).ann = {}
       invalid ==
         (IF All \ AllUnr # {} THEN {V({"C16"}, "invalid-script-active", Min(All \ AllUnr))} ELSE {})
         \cup (IF Cardinality(AllUnr) > 1 THEN {V({"C16", "C17"}, "unregistered-twice", Max(AllUnr))} ELSE {})
-        \cup (IF AllUnr = {} /\ Settled(q, j0) THEN {V({"C16"}, "missing-unregistered", r)} ELSE {})
+        \cup (IF AllUnr = {} /\ Settled(q, j0) /\ ~Superseded(r) THEN {V({"C16"}, "missing-unregistered", r)} ELSE {})
         \cup {V({"C16"}, "invalid-script-unregistered-without-error", i) : i \in {i \in AllUnr : ~F[i].err \/ F[i].fid # 0}}
         \cup {V({"C16", "C06"}, "output-context", i) : i \in {i \in All : F[i].ctx # c}}
       valid ==
         UNION {I(j).v : j \in Incs}
         \cup {V({"C17", "C16"}, "stopped-handler-came-back", r) : j \in {j \in Incs : j > j0 /\ StoppedBefore(j) /\ I(j).act}}
-        \cup {V({"C17"}, "missing-restored-handler", r) :
-                j \in {j \in Incs : j > j0 /\ AnnouncedBefore(j) /\ ~StoppedBefore(j) /\ Settled(q, j) /\ I(j).ann = {} /\ ~Shadowed(j)}}
+        \cup {V({"C17", "C16"}, "replaced-handler-came-back", r) : j \in {j \in Incs : j > j0 /\ Replaced(j) /\ I(j).act}}
+        \cup {V({"C17"}, "missing-restored-handler", r) : j \in {j \in Incs : Owes(j) /\ ~Shadowed(j)}}
       kn == UNION {I(j).k : j \in Incs}
-            \cup (IF \E j \in Incs : j > j0 /\ AnnouncedBefore(j) /\ ~StoppedBefore(j) /\ Settled(q, j) /\ I(j).ann = {} /\ Shadowed(j)
-                  THEN {"C17-name-keyed-compaction"} ELSE {})
+            \cup (IF \E j \in Incs : Owes(j) /\ Shadowed(j) THEN {"C17-name-keyed-compaction"} ELSE {})
   IN IF k.valid THEN [v |-> valid, k |-> kn] ELSE [v |-> invalid, k |-> {}]
 
 \* frames stamped with a handler id that is no registration, announcements without stamp
